@@ -14,7 +14,7 @@ def parse_logs(paths):
     for p in paths:
         cur = None
         for line in open(p, errors="replace"):
-            m = re.match(r"=== (C\d\d)/([ab]) -> check (C\d\d) \((\d\d:\d\d)\)", line)
+            m = re.match(r"=== (C\d\d)/([a-d]) -> check (C\d\d) \((\d\d:\d\d)\)", line)
             if m:
                 cur = "%s-%s" % (m.group(1), m.group(2))
                 res.setdefault(cur, []).append({"check": m.group(3), "log": os.path.basename(p), "lines": []})
